@@ -179,11 +179,11 @@ def run(prog, chk):
         classes = sorted(set(type_class(n) for n in nums)) or ["unknown"]
         where = "%s:%d" % (f.module.path, c.lineno)
         tname = "+".join(names) if names else unparse(c.args[0]) if c.args else "?"
-        key = "%s:%s" % (f.qual, tname)
-        i = counter.get(key, 0)
-        counter[key] = i + 1
-        if i:
-            key += "#%d" % i
+        # key: function, sender kind and ordinal of the site within the function (message names go in the detail)
+        base = "%s:%s" % (f.qual, "gated" if gated else "ungated")
+        i = counter.get(base, 0)
+        counter[base] = i + 1
+        key = "%s#%d" % (base, i)
         upper = any(k in ("service", "auth", "connection", "unknown") for k in classes)
         if f.cls is not None and f.cls.name in ("Transport", "ServiceRequestingTransport") and f.name in (GATED, UNGATED):
             continue  # the senders themselves
